@@ -144,3 +144,53 @@ def p_substr_lemma(I, args, kwargs, node):
 
 
 PRIMS['substr_lemma'] = p_substr_lemma
+
+
+from .values import VTuple  # noqa: E402
+
+
+def p_ext_names(I, args, kwargs, node):
+    """names of the external calls made on this path, in order"""
+    return VTuple([VStr(r['name']) for r in I.ghost.get('ext_trace', [])])
+
+
+def p_ext_index(I, args, kwargs, node):
+    nm = _m.concretise(args[0])
+    k = _m.concretise(args[1]) if len(args) > 1 else 0
+    idx = [i for i, r in enumerate(I.ghost.get('ext_trace', [])) if r['name'] == nm]
+    return VInt(idx[k] if k < len(idx) else -1)
+
+
+def p_ext_raised_in(I, args, kwargs, node):
+    nm = _m.concretise(args[0])
+    return VBool(any(r['name'] == nm and r['raised'] for r in I.ghost.get('ext_trace', [])))
+
+
+def p_ext_call_arg(I, args, kwargs, node):
+    nm, k, j = [_m.concretise(a) for a in args]
+    rs = [r for r in I.ghost.get('ext_trace', []) if r['name'] == nm]
+    if k < len(rs) and j < len(rs[k]['args']):
+        return rs[k]['args'][j]
+    return VStr(z3.String('no_such_ext_arg'))
+
+
+def p_ext_call_result(I, args, kwargs, node):
+    nm, k = [_m.concretise(a) for a in args]
+    rs = [r for r in I.ghost.get('ext_trace', []) if r['name'] == nm and 'result' in r]
+    return rs[k]['result'] if k < len(rs) else VStr(z3.String('no_such_ext_result'))
+
+
+PRIMS.update({'ext_names': p_ext_names, 'ext_index': p_ext_index, 'ext_raised_in': p_ext_raised_in,
+              'ext_call_arg': p_ext_call_arg, 'ext_call_result': p_ext_call_result})
+
+
+def p_complete_at_rename(I, args, kwargs, node):
+    """the temporary file has been closed (all bytes written) when it is renamed to the final
+    name -- concretely observed by bounded/loader_harness.py at the moment of the rename"""
+    tr = [r['name'] for r in I.ghost.get('ext_trace', [])]
+    if 'rename' not in tr:
+        return VBool(True)
+    return VBool('close' in tr and tr.index('close') < tr.index('rename'))
+
+
+PRIMS['complete_at_rename'] = p_complete_at_rename
